@@ -7,6 +7,7 @@ model-vs-implementation disagreements, `STAT …` counters.
 import MinizProof.Driver.Util
 import MinizProof.Spec.Inflate
 import MinizProof.Model.DeflStream
+import MinizProof.Model.InflStream
 namespace Driver
 open Spec
 
@@ -315,6 +316,35 @@ def opDfl (a : Acc) (ln : Nat) (l : Line) : Acc := Id.run do
   | .contract => a := a.diff ln l "contract" "engine reported more than it was offered"
   return a
 
+/-- `IFL`: one real `inflate()` call with the inner `decompress` calls it made (hook), replayed
+    through `Model.Infl.inflate`: result, counts, new wrapper state and the arguments of every
+    inner call (input length, out_pos, buffer length, flags) must agree. -/
+def opIfl (a : Acc) (ln : Nat) (l : Line) : Acc := Id.run do
+  let parseTuples (s : String) : List (List Int) :=
+    if s == "-" || s == "" then [] else (s.splitOn ";").map (fun t => (t.splitOn ":").map (·.toInt?.getD 0))
+  let mkSt (v : List Int) (fmt : Nat) : Model.Infl.St :=
+    { dictOfs := (v.getD 0 0).toNat, dictAvail := (v.getD 1 0).toNat, firstCall := v.getD 2 0 != 0,
+      hasFlushed := v.getD 3 0 != 0, lastStatus := v.getD 4 0, fmt := fmt }
+  let fmt := l.nat "fmt"
+  let pre := mkSt (l.ints "pre") fmt
+  let post := mkSt (l.ints "post") fmt
+  let script := (parseTuples (l.get "script")).map (fun t => ({ st := t.getD 0 0, ib := (t.getD 1 0).toNat, ob := (t.getD 2 0).toNat } : Model.Infl.Resp))
+  let args : List Model.Infl.Call := (parseTuples (l.get "args")).map (fun t => ((t.getD 0 0).toNat, (t.getD 1 0).toNat, (t.getD 2 0).toNat, (t.getD 3 0).toNat))
+  let res := (parseTuples (l.get "res")).getD 0 []
+  let mut a := a.bump "ifl_calls"
+  a := a.bump "ifl_inner_calls" script.length
+  match Model.Infl.inflate pre (l.nat "in") (l.nat "out") (l.nat "flush") script with
+  | .ok s r calls =>
+    if r.status != res.getD 0 0 || (r.consumed : Int) != res.getD 1 0 || (r.written : Int) != res.getD 2 0 then
+      a := a.diff ln l "result" s!"model ({r.status}, {r.consumed}, {r.written}) vs implementation {res}"
+    if s != post then
+      a := a.diff ln l "state" s!"model state (ofs {s.dictOfs}, avail {s.dictAvail}, first {s.firstCall}, flushed {s.hasFlushed}, last {s.lastStatus}) vs implementation {l.get "post"}"
+    if calls != args then
+      a := a.diff ln l "inner_calls" s!"model calls the decoder with {calls}, implementation with {args}"
+  | .stuck calls => a := a.diff ln l "inner_calls" s!"model wants another decoder call after {calls.length - 1}; implementation made {args.length}"
+  | .contract => a := a.diff ln l "contract" "decoder reported more than it was offered"
+  return a
+
 def dispatch (a : Acc) (ln : Nat) (l : Line) : Acc :=
   match l.op with
   | "ENC" => opEnc a ln l
@@ -325,6 +355,7 @@ def dispatch (a : Acc) (ln : Nat) (l : Line) : Acc :=
   | "DEC" => opDec a ln l
   | "BB" => opBb a ln l
   | "DFL" => opDfl a ln l
+  | "IFL" => opIfl a ln l
   | "" => a
   | "#" => a
   | _ => a.bump ("unknown_op_" ++ l.op)
